@@ -18,15 +18,17 @@ def finite_frame(x):
     v = np.asarray(pd.DataFrame(x).to_numpy(dtype=float))
     return bool(np.all(np.isfinite(v) | np.isnan(v))) and not np.any(np.isinf(v))
 for it in range(N):
-    k = (rs.randint(len(SCHED)), rs.randint(len(SEL)), rs.randint(len(WGT)), rs.randint(len(COMM)), bool(rs.randint(2)), bool(rs.randint(2)))
+    k = (rs.randint(len(SCHED)), rs.randint(len(SEL)), rs.randint(len(WGT)), rs.randint(len(COMM)), bool(rs.randint(2)), bool(rs.randint(2)), int(rs.randint(4)))
+    mult = [1, 1, 10, 0.25][k[6]]
+    sec = lambda nm: Security(nm, multiplier=mult) if mult != 1 else nm
     names = list("abcd")
     data = mkdata(int(rs.randint(8, 30)), names)
     if rs.rand() < 0.3: data.iloc[: int(rs.randint(1, 4)), 3] = np.nan  # late listing
     stack = [SCHED[k[0]](), SEL[k[1]](), WGT[k[2]](), A.Rebalance()]
     if k[5]:
-        s = Strategy("top", [A.RunWeekly(), A.SelectAll(), A.WeighEqually(), A.Rebalance()], children=[Strategy("sub", stack, children=["a", "b"]), "c"])
+        s = Strategy("top", [A.RunWeekly(), A.SelectAll(), A.WeighEqually(), A.Rebalance()], children=[Strategy("sub", stack, children=[sec("a"), sec("b")]), sec("c")])
     else:
-        s = Strategy("s", stack)
+        s = Strategy("s", stack, children=[sec(nm) for nm in names]) if mult != 1 else Strategy("s", stack)
     random_state = rs.randint(1 << 30)
     import random; random.seed(random_state); np.random.seed(random_state % (1 << 31))
     try:
@@ -43,7 +45,13 @@ for it in range(N):
         ok = all(finite_frame(o) for o in outs) and np.all(np.isfinite(t.strategy.prices.to_numpy())) and np.all(np.isfinite(t.strategy.values.to_numpy()))
         if not ok: fails.append(dict(clause="non-finite-result", config=list(map(int, k))))
     except Exception as e:
-        fails.append(dict(clause="well-formed-run-raised", config=list(map(int, k)), error=repr(e)[:300]))
+        fl = dict(clause="well-formed-run-raised", config=list(map(int, k)), error=repr(e)[:300])
+        pre = str(data.index[0] - pd.DateOffset(days=1))
+        # recorded finding: a sub-strategy gated by RunOnce (no calendar scheduler) is run by its shadow copy on the synthetic
+        # pre-start row Backtest prepends (all prices NaN); an unconditional weigher then trades at a missing price
+        if k[5] and k[0] == 3 and "price is nan as of " + pre in repr(e):
+            fl["finding"] = "C10-nested-runonce-trades-on-synthetic-first-date"
+        fails.append(fl)
     evals += 1; distinct.add(k)
     if it < 2: samples.append(dict(config=list(map(int, k)), final=float(t.strategy.value) if 't' in dir() else None))
 # ---- ill-formed classes must raise
@@ -79,6 +87,6 @@ def nan_coupon_open():
 for nm, fn in [("zero price trade", zero_price), ("nan price trade", nan_price_trade), ("nan price on open position", nan_price_open), ("duplicate tickers", dup_tickers), ("return on zero base", zero_base),
                ("fixed-income child under market-value parent", fi_under_mv), ("custom price without bid/offer", custom_price_no_bidoffer), ("missing coupons", missing_coupons), ("nan coupon on open position", nan_coupon_open)]:
     expect_raise(nm, fn)
-print("JSON:" + json.dumps(dict(evaluations=evals, distinct=len(distinct) + 9, failures=fails[:5], samples=samples,
-      rule="random (scheduler, selector, weigher, commission, integer-positions, nested) stacks on random price paths with late listings; every report accessor finite; 9 ill-formed classes must raise; distinct = distinct configurations",
+print("JSON:" + json.dumps(dict(evaluations=evals, distinct=len(distinct) + 9, failures=sorted(fails, key=lambda f: 'finding' in f)[:5], samples=samples,
+      rule="random (scheduler, selector, weigher, commission, integer-positions, nested, security multiplier) stacks on random price paths with late listings; every report accessor finite; 9 ill-formed classes must raise; distinct = distinct configurations",
       bound="%d generated backtests (8-30 dates, 4 tickers) + 9 ill-formed cases" % N)))
